@@ -693,7 +693,32 @@ Proof.
     rewrite (Hsel r Hr). apply Hidx. exact Hi.
 Qed.
 
-(* read_sync = digital lines ++ thresholded analog lines, row by row *)
+(* read_sync = digital lines ++ thresholded analog lines, row by row; total in the one-word
+   domain (since repair 5bea0f5 an empty selection skips the floor and returns zero rows) *)
+Lemma read_sync_layout_total typ ntr c0 c1 c2 c3 start stop one thr gain use_floor raw :
+  nsync_of typ c0 c1 c2 c3 = 1 -> 1 <= ntr ->
+  (forall r, In r raw -> Z.of_nat (length r) = ntr) ->
+  (forall i, In i (analog_indices typ c0 c1 c2 c3) -> 0 <= i < ntr) ->
+  let sel := slice_rows start stop raw in
+  let an := analog_volts typ c0 c1 c2 c3 gain sel in
+  let floors := floors_of use_floor an (length (analog_indices typ c0 c1 c2 c3)) in
+  read_sync typ ntr c0 c1 c2 c3 start stop one thr gain use_floor raw =
+  Some (map (fun r => split_word (nth (Z.to_nat (ntr - 1)) r 0)
+                      ++ digitise_row (10 * one) (10 * thr) 10 floors
+                           (map (fun v => v * gain) (analog_cols typ c0 c1 c2 c3 r)))
+            sel).
+Proof.
+  intros Hns Hntr Hrect Hidx sel an floors.
+  unfold read_sync. rewrite (read_sync_digital_one _ _ _ _ _ _ _ _ _ Hns Hntr Hrect).
+  rewrite (read_sync_analog_ok _ _ _ _ _ _ _ _ _ _ Hrect Hidx). fold sel.
+  unfold floors, an, analog_volts, analog_cols.
+  destruct (analog_indices typ c0 c1 c2 c3) as [|i0 idx] eqn:Eidx.
+  - apply f_equal. apply map_ext. intros r. cbn [map]. unfold digitise_row.
+    cbn [length seq combine map]. symmetry. apply app_nil_r.
+  - rewrite map_map. apply hconcat_map.
+Qed.
+
+(* the same with the (now unnecessary) side condition of earlier rounds, kept for the lemmas built on it *)
 Lemma read_sync_layout typ ntr c0 c1 c2 c3 start stop one thr gain use_floor raw :
   nsync_of typ c0 c1 c2 c3 = 1 -> 1 <= ntr ->
   (forall r, In r raw -> Z.of_nat (length r) = ntr) ->
@@ -707,23 +732,7 @@ Lemma read_sync_layout typ ntr c0 c1 c2 c3 start stop one thr gain use_floor raw
                       ++ digitise_row (10 * one) (10 * thr) 10 floors
                            (map (fun v => v * gain) (analog_cols typ c0 c1 c2 c3 r)))
             sel).
-Proof.
-  intros Hns Hntr Hrect Hidx Hfl sel an floors.
-  unfold read_sync. rewrite (read_sync_digital_one _ _ _ _ _ _ _ _ _ Hns Hntr Hrect).
-  rewrite (read_sync_analog_ok _ _ _ _ _ _ _ _ _ _ Hrect Hidx). fold sel.
-  unfold floors, an, analog_volts, analog_cols.
-  destruct (analog_indices typ c0 c1 c2 c3) as [|i0 idx] eqn:Eidx.
-  - apply f_equal. apply map_ext. intros r. cbn [map]. unfold digitise_row.
-    cbn [length seq combine map]. symmetry. apply app_nil_r.
-  - fold sel. set (A := map (fun r => map (fun v => v * gain) (map (fun i => nth (Z.to_nat i) r 0) (i0 :: idx))) sel).
-    destruct use_floor.
-    + destruct sel as [|r0 sel'] eqn:Es.
-      * exfalso. destruct Hfl as [H|[H|H]]; [discriminate|now apply H|discriminate].
-      * assert (HA : A <> []) by (unfold A; discriminate).
-        destruct A as [|a0 A'] eqn:EA; [congruence|]. rewrite <- EA. unfold A.
-        rewrite map_map. apply hconcat_map.
-    + destruct A eqn:EA; rewrite <- EA; unfold A; rewrite map_map; apply hconcat_map.
-Qed.
+Proof. intros Hns Hntr Hrect Hidx _. now apply read_sync_layout_total. Qed.
 
 (* ------------------------------------------------------------------ *)
 (* fronts on 2-D arrays                                                *)
@@ -1347,31 +1356,18 @@ Qed.
 (* round 3: when read_sync fails; the floor is a function of the multiset *)
 (* ------------------------------------------------------------------ *)
 
-(* In the one-word domain read_sync fails in exactly one situation: floor on,
-   analog channels present, empty selection. *)
-Lemma read_sync_none_iff typ ntr c0 c1 c2 c3 start stop one thr gain use_floor raw :
+(* In the one-word domain read_sync never fails (before repair 5bea0f5 it failed on an empty
+   selection with analog channels and the floor on); an empty selection gives zero rows. *)
+Lemma read_sync_total typ ntr c0 c1 c2 c3 start stop one thr gain use_floor raw :
   nsync_of typ c0 c1 c2 c3 = 1 -> 1 <= ntr ->
   (forall r, In r raw -> Z.of_nat (length r) = ntr) ->
   (forall i, In i (analog_indices typ c0 c1 c2 c3) -> 0 <= i < ntr) ->
-  (read_sync typ ntr c0 c1 c2 c3 start stop one thr gain use_floor raw = None <->
-   use_floor = true /\ slice_rows start stop raw = [] /\ analog_indices typ c0 c1 c2 c3 <> []).
+  exists rows, read_sync typ ntr c0 c1 c2 c3 start stop one thr gain use_floor raw = Some rows /\
+    length rows = length (slice_rows start stop raw) /\
+    (slice_rows start stop raw = [] -> rows = []).
 Proof.
-  intros Hns Hntr Hrect Hidx. split.
-  - intros HN.
-    assert (Hsome : (use_floor = false \/ slice_rows start stop raw <> [] \/
-                     analog_indices typ c0 c1 c2 c3 = []) -> False).
-    { intros Hfl.
-      pose proof (read_sync_layout typ ntr c0 c1 c2 c3 start stop one thr gain use_floor raw
-                    Hns Hntr Hrect Hidx Hfl) as HL. cbv zeta in HL. rewrite HL in HN. discriminate. }
-    destruct use_floor; [|exfalso; apply Hsome; left; reflexivity].
-    split; [reflexivity|]. split.
-    + destruct (slice_rows start stop raw) eqn:Es; [reflexivity|].
-      exfalso. apply Hsome. right. left. discriminate.
-    + intros Ei. apply Hsome. right. right. exact Ei.
-  - intros (-> & Es & Hi). unfold read_sync.
-    rewrite (read_sync_digital_one _ _ _ _ _ _ _ _ _ Hns Hntr Hrect).
-    rewrite (read_sync_analog_ok _ _ _ _ _ _ _ _ _ _ Hrect Hidx). rewrite Es.
-    destruct (analog_indices typ c0 c1 c2 c3); [congruence|]. reflexivity.
+  intros Hns Hntr Hrect Hidx. eexists. split; [now apply read_sync_layout_total|].
+  cbv zeta. split; [apply map_length|]. intros ->. reflexivity.
 Qed.
 
 (* two sorted lists that are permutations of each other are equal *)
